@@ -30,10 +30,13 @@ def main():
         "classes": [object, T.A, T.B, T.C, T.D, T.E, T.Proto, T.Proto2, T.WithFoo],
         "classes+generics": [object, T.A, T.B, list[T.A], list[T.B], type[T.A], type[T.B], list],
         "classes+dependent": [object, int, bool, terms["Equals"][0], terms["Equals"][4], terms["FuncDep"][0]],
+        "classes+wildcard_dependent": [object, tuple, T.Shape[2, T.typing.Any], T.Shape[T.typing.Any, 2], T.Shape[2, 2], T.Shape[T.typing.Any, T.typing.Any]],
         "with_unions": [object, T.A, T.E] + terms["Union"][:3] + [terms["Union"][6]],
         "with_intersections": [object, T.B, T.C] + terms["Inter"][:4],
     }
-    probes = {"classes": [T.D, T.B, T.A, T.E, T.WithFoo], "classes+generics": [list[T.B], type[T.B], T.B], "classes+dependent": [bool, int], "with_unions": [T.D, T.E, T.A], "with_intersections": [T.D, T.B]}
+    dts, dcls = T.deferred_terms()
+    fams["deferred_references"] = [object, dcls[0]] + dts
+    probes = {"deferred_references": [dcls[1], dcls[2], dcls[3]], "classes": [T.D, T.B, T.A, T.E, T.WithFoo], "classes+generics": [list[T.B], type[T.B], T.B], "classes+dependent": [bool, int], "classes+wildcard_dependent": [tuple], "with_unions": [T.D, T.E, T.A], "with_intersections": [T.D, T.B]}
     failing, n = [], 0
     for fam, types in fams.items():
         bad = []
@@ -52,6 +55,31 @@ def main():
                     break
         if bad:
             failing.append(dict(name=f"sort_types_order_free[{fam}]", n_violations=len(bad), violations=bad[:2]))
+    # end to end: two deferred references at one argument position, both registration orders
+    from ovld import Ovld
+
+    outs = []
+    for order in ((2, 3), (3, 2)):
+        ov = Ovld(name="d")
+        for i in order:
+            g = {"T": dts[i]}
+            exec(f"def m(x: T):\n    return 'ref{i}'\n", g)
+            ov.register(g["m"])
+
+        def mo(x: object):
+            return "object"
+
+        ov.register(mo)
+        res = []
+        for c in (dcls[2], dcls[3], dcls[0]):
+            n += 1
+            try:
+                res.append(ov(c()))
+            except TypeError as e:
+                res.append("AMBIGUOUS" if str(e).startswith("Ambiguous") else "NOMETHOD")
+        outs.append(res)
+    if outs[0] != outs[1] or outs[0] != ["ref2", "ref3", "object"]:
+        failing.append(dict(name="registration_order_independent[deferred_references]", n_violations=1, violations=[dict(order_a=outs[0], order_b=outs[1], expected=["ref2", "ref3", "object"])]))
     # hash seeds
     ref = None
     for seed in ("0", "1", "12345"):
